@@ -1156,7 +1156,8 @@ class yanny(OrderedDict):
             for t in self.tables():
                 record = np.zeros((self.size(t),), dtype=self.dtype(t))
                 for c in self.columns(t):
-                    record[c] = self[t][c]
+                    if len(self[t][c]) > 0:
+                        record[c] = self[t][c]
                 self[t] = record.view(np.recarray)
         return
 
